@@ -241,6 +241,7 @@ def main(tier):
         if not mc["ok"]:
             V.add("spec:MC_ListLaws:" + str(mc["violated"]), {"trace": tlc.counterexample(mc["out"])})
         obs = common.pool_map(observe, cs, initfn=common.import_repo, hard_timeout=120, on_timeout=lambda c: {"calls": []})
+        common.retry_hangs(cs, obs, observe)      # a watchdog firing under load is re-observed alone, with longer alarms
         verdicts, st = tlc.validate(s, "Trace_Laws", obs, cfg="Trace_Laws.cfg", chunk=500)
     tally = {}
     ncalls = sum(len(o["calls"]) for o in obs)
